@@ -360,13 +360,18 @@ func (s *hlSim) finishBlock(ev *eval.BlockEvaluator) (*ledgercore.ValidatedBlock
 	if err != nil {
 		return nil, fmt.Errorf("GenerateBlock: %w", err)
 	}
-	blk := ub.UnfinishedBlock()
 	var seed committee.Seed
 	s.r.Fill(seed[:])
+	var blk bookkeeping.Block
 	if proto.Payouts.Enabled {
-		blk = blk.WithProposer(seed, prp, eligible)
+		if prp != s.u.sink {
+			// as agreement does: a proposer that closed its account inside this block gets no payout
+			blk = ub.FinishBlock(seed, prp, eligible)
+		} else {
+			blk = ub.UnfinishedBlock().WithProposer(seed, prp, eligible)
+		}
 	} else {
-		blk = blk.WithProposer(seed, basics.Address{}, false)
+		blk = ub.UnfinishedBlock().WithProposer(seed, basics.Address{}, false)
 	}
 	vb, err := s.validateNoSig(blk)
 	if err != nil {
@@ -436,11 +441,16 @@ func (s *hlSim) waitBlockQueue() {
 	s.l.WaitForCommit(s.l.Latest())
 }
 
-// flush forces a tracker commit of everything eligible (same steps the background syncer performs).
+// flush forces a tracker commit of everything eligible. The task is handed to the ledger's own
+// commit goroutine (trackers.deferredCommits), so there is still exactly one committer as in
+// production: calling commitRound from the harness while the background committer runs made two
+// committers write the same range (UNIQUE constraint errors) — a harness artefact, fixed here.
+// Unlike scheduleCommit the flush-interval heuristic is bypassed ("forced").
 func (s *hlSim) flush() basics.Round {
 	s.waitBlockQueue()
 	l := s.l
 	l.trackers.waitAccountsWriting()
+	l.trackerMu.Lock() // same lock notifyCommit/committedUpTo take while scheduling
 	rnd := l.Latest()
 	maxLookback := basics.Round(0)
 	for _, lt := range l.trackers.trackers {
@@ -461,10 +471,9 @@ func (s *hlSim) flush() basics.Round {
 	l.trackers.mu.RUnlock()
 	if dcc != nil {
 		l.trackers.accountsWriting.Add(1)
-		if err := l.trackers.commitRound(dcc); err != nil {
-			s.c.Harness("commitRound: %v", err)
-		}
+		l.trackers.deferredCommits <- dcc
 	}
+	l.trackerMu.Unlock()
 	l.trackers.waitAccountsWriting()
 	s.tr("flush -> dbRound %d (latest %d)", l.LatestTrackerCommitted(), rnd)
 	return l.LatestTrackerCommitted()
